@@ -48,6 +48,22 @@ Definition conv_row (old : list Z) (P : Z -> Z -> Z) (cols : list Z) (r : Z) : o
 Definition conv_list (old : list Z) (P : Z -> Z -> Z) (n m : nat) : list (option Z) :=
   map (fun r => conv_row old P (map Z.of_nat (seq 0 m)) (Z.of_nat r)) (seq 0 n).
 
+(* padding coefficient of the qutrit -> qubit embedding as written in the per-type _embed_* methods:
+   a constant, 1 / n, or 1 / np.sqrt(n) *)
+Inductive coef := CConst (z : Z) | CInv (n : Z) | CInvSqrt (n : Z).
+
+(* nested binary products as written by tensor_product's loop *)
+Inductive ptree := PLeaf (id : Z) | PNode (l r : ptree).
+(* operators._tensor_product: which pairs of operand types (codes: Gate 0, MProcess 1, SparseMatrixBasis 2, MatrixBasis 3, State 4,
+   StateEnsemble 5, Povm 6) are accepted and what is done with them (0..6 = the dedicated product function called as F(elem1, elem2):
+   Gate_Gate, Gate_MProcess, MProcess_Gate, MProcess_MProcess, State_State, StateEnsemble_StateEnsemble, Povm_Povm; 10 / 11 = sparse /
+   dense basis of all kron(v1, v2) in itertools.product order; 20 / 21 = State (x) StateEnsemble / StateEnsemble (x) State entry-wise
+   with the ensemble's distribution); None = TypeError *)
+Definition tp_table : list (Z * Z * Z) :=
+  [(0, 0, 0); (0, 1, 1); (1, 0, 2); (1, 1, 3); (2, 2, 10); (3, 3, 11); (4, 4, 4); (4, 5, 20); (5, 4, 21); (5, 5, 5); (6, 6, 6)]%Z.
+Definition tp_dispatch (t1 t2 : Z) : option Z :=
+  option_map snd (find (fun e : Z * Z * Z => (fst (fst e) =? t1)%Z && (snd (fst e) =? t2)%Z) tp_table).
+
 (* ---- symbolic numpy expressions *)
 Inductive sym := SEye (n : Z) | SK (d1 d2 : Z) | SKron (a b : sym) | SMatmul (a b : sym).
 
